@@ -59,11 +59,15 @@ type c12Source struct {
 }
 
 func c12MakeSource(c kv.Contents, dir string) (*c12Source, error) {
+	return c12MakeSourceTyped(c, dir, node.RootTypeState)
+}
+
+func c12MakeSourceTyped(c kv.Contents, dir string, rootType node.RootType) (*c12Source, error) {
 	ndb, err := kv.OpenDB("badger", "")
 	if err != nil {
 		return nil, err
 	}
-	t := mkvs.New(nil, ndb, node.RootTypeState)
+	t := mkvs.New(nil, ndb, rootType)
 	for _, k := range c.SortedKeys() {
 		if err := t.Insert(kv.Ctx, []byte(k), c[k]); err != nil {
 			return nil, err
@@ -74,7 +78,7 @@ func c12MakeSource(c kv.Contents, dir string) (*c12Source, error) {
 	if err != nil {
 		return nil, err
 	}
-	root := kv.RootFor(1, node.RootTypeState, h)
+	root := kv.RootFor(1, rootType, h)
 	if err := ndb.Finalize([]node.Root{root}); err != nil {
 		return nil, err
 	}
